@@ -12,7 +12,7 @@ from typing import Any
 
 import anyio
 
-from .bench import Adapter, Bench, compare
+from .bench import Adapter, Bench, compare, prim
 from .common import Ctx, Disagreement, Result, Violation, load_corpus, run_model
 
 BORROWER_BASE = 100  # explicit borrower objects are numbered 100, 101, ... (never a task index)
@@ -52,11 +52,18 @@ class SemAdapter(SamplingAdapter):
 
     def new_line(self, cfg: Any) -> str:
         m = cfg.get("max")
+        if cfg.get("adapter"):
+            # SemaphoreAdapter (a Semaphore created while no loop runs) silently drops fast_acquire on
+            # the pinned tree (DESIGN section 4, observation O1: not one of the 20 properties).  The
+            # combination is not generated, so that neither the bug nor its repair shows up as a
+            # disagreement.
+            cfg["fast"] = False
         return f"new {int(bool(cfg['fast']))} {cfg['init']} {'-' if m is None else m}"
 
     def setup(self, cfg: Any, bench: Bench) -> None:
         self.bench = bench
-        self.sem = anyio.Semaphore(cfg["init"], max_value=cfg.get("max"), fast_acquire=bool(cfg["fast"]))
+        self.sem = prim("Semaphore", bool(cfg.get("adapter")), cfg["init"], max_value=cfg.get("max"),
+                        fast_acquire=bool(cfg["fast"]))
 
     def fmt(self, t: int, op: list, pre: bool) -> str:
         self.sample(t, op)
@@ -96,7 +103,7 @@ class LimiterAdapter(SamplingAdapter):
 
     def setup(self, cfg: Any, bench: Bench) -> None:
         self.bench = bench
-        self.lim = anyio.CapacityLimiter(self.tot(cfg["total"]))
+        self.lim = prim("CapacityLimiter", bool(cfg.get("adapter")), self.tot(cfg["total"]))
 
     def borrower(self, b: int) -> object:
         if b not in self.objs:
@@ -239,7 +246,8 @@ def gen_sem(rng: random.Random, max_tasks: int, max_ops: int) -> dict:
             ops.append(["release"])
             holding -= 1
         scripts.append(ops)
-    return {"kind": "sem", "cfg": {"init": init, "max": mx, "fast": rng.random() < 0.4}, "scripts": scripts}
+    return {"kind": "sem", "cfg": {"init": init, "max": mx, "fast": rng.random() < 0.4,
+                                   "adapter": rng.random() < 0.25}, "scripts": scripts}
 
 
 def gen_lim(rng: random.Random, max_tasks: int, max_ops: int, misuse: bool = False) -> dict:
@@ -299,7 +307,7 @@ def gen_lim(rng: random.Random, max_tasks: int, max_ops: int, misuse: bool = Fal
             if rng.random() < 0.8:
                 ops.append(["release_on_behalf_of", b])
         scripts.append(ops)
-    case = {"kind": "lim", "cfg": {"total": total}, "scripts": scripts}
+    case = {"kind": "lim", "cfg": {"total": total, "adapter": rng.random() < 0.25}, "scripts": scripts}
     if misuse:
         case["misuse"] = True
     return case
